@@ -59,12 +59,12 @@ def check(ctx, cases):
 
 def run(ctx):
     thorough = ctx.tier == "thorough"
-    invs = ["HeaderOnlyFirst", "StartsWithHeader", "LastCallRows"]
+    invs = ["HeaderOnlyFirst", "StartsWithHeader", "LastCallRows", "UidsParallel", "UidNumbersDistinctPerCall"]
     maxops = 4 if thorough else 3
     ctx.tlc("Export", {"MaxOps": maxops + 1, "Fault": "none", "EmitCases": False}, invariants=invs, properties=["ReopenKeepsRows"])
     ctx.tlc("Export", {"MaxOps": 3, "Fault": "none", "EmitCases": False}, invariants=invs, coverage=True, count=False)
     ctx.require_actions(["Csv", "WInit", "WWrite", "WClose", "WOpen"])
-    for fault in ("append_always_header", "header_after_open"):
+    for fault in ("append_always_header", "header_after_open", "uid_not_advanced"):
         ctx.tlc("Export", {"MaxOps": 3, "Fault": fault, "EmitCases": False}, invariants=invs, expect_violation=fault, count=False)
     res = ctx.tlc("Export", {"MaxOps": maxops, "Fault": "none", "EmitCases": True}, invariants=["EmitCase"], workers=1, count=False)
     cases = []
@@ -72,10 +72,8 @@ def run(ctx):
         if thorough and ctx.rng.random() > 0.5:
             continue
         attrs = pick_attrs(ctx.rng, full=(i % 4 == 0), with_unknown=(i % 5 == 1))
-        uses_csv = any(o["name"] == "csv" for o in c["ops"])
         cases.append({"id": "h%d" % i, "kind": "c19_file", "abs": {},
-                      "args": {"ops": c["ops"], "attrs": attrs, "nice": ctx.rng.choice(["none", "true", "list", "dict"]),
-                               "uid": None if uses_csv or ctx.rng.random() < 0.6 else ctx.rng.choice([0, 27])}})
+                      "args": {"ops": c["ops"], "attrs": attrs, "nice": ctx.rng.choice(["none", "true", "list", "dict"])}})
     if not cases:
         raise core.MachineryFailure("Export emitted no histories")
     ctx.exhaustive = not thorough
@@ -91,7 +89,7 @@ def run(ctx):
     check(ctx, cases)
     ctx.rule = ("file histories = every behaviour of spec/Export.tla with %d operations (new / existing file; tracts_to_csv w|a; "
                 "TractWriter init w|a, write(description | None), close, open) x random attribute subsets/orders (all 27 "
-                "documented attributes every 4th history, an unknown name every 5th) x 4 header options x optional UID column; "
+                "documented attributes every 4th history, an unknown name every 5th) x 4 header options, with and without the UID column ('0027.a-c' = number per write() call, index, total); "
                 "record forms: tracts_to_dict / tracts_to_list / iter_* on PLSSDesc and TractList; non-trivial = distinct case"
                 % maxops)
     ctx.assumptions += ["rows are identified by their (trs, desc) cells; a list / dict cell must contain the str() of its leaves "
